@@ -15,6 +15,7 @@ EXPLANATION = (
     "mnemonic's own span. R4: directive words carry join(directive, literal), and join is [min offs, max end). "
     "R5 (EFF): the debugger's source view is built from the very AIR the image was emitted from and is never written."
     ' R4 is decided on emission summaries with call identity (directive token vs operand token). R7: a prefix label taken by the parser is entered into the symbol table on every way to the next statement. R8: the functions of the source view that print a slice of the stored source do so under an output category whose writer arm does not scan the text (the markup categories are read from DebuggerWriter::write_str). R9 (TAB): every lexer scan that can end in an identifier has a predicate that is false on each separator character of the lexer (is_whitespace evaluated over ASCII), so a label name never contains its colon.'
+    " R1 also: the offset helper is evaluated on a grid of origins, addresses and offsets around both bounds and must answer Some(address + offset) exactly for sums in [origin, 0xFE00); the statement lookup is bounded by the statement count itself."
 )
 NOT_DECIDED = "equality of the shown text with the intended statement text for every layout (comments glued to operands etc.)"
 
@@ -74,6 +75,43 @@ def run(ctx):
     ctx.need(pays, "Some(..) result of add_address_offset")
     for b, s, e in pays:
         check("offset helper returns address + offset", sp_file_line(s.get("sp")), lin(e), 0, [("address", 1), ("offset", 1)])
+    # ... for exactly the sums that lie in user space: the helper's answer is evaluated on a grid of origins, addresses and offsets around
+    # both ends (a bound drawn tighter - the end of the program, say - makes `label+offset` and `^offset` refuse words that exist)
+    try:
+        tree_ao = formula.decision(ao)
+    except formula.NotATree:
+        tree_ao = None
+    bad_ao = None
+    if tree_ao is not None:
+        UME = 0xFE00
+        for orig_ in (0x0000, 0x3000, 0xFDF0):
+            for addr_ in sorted({orig_, orig_ + 1, orig_ + 9, 0x8000, UME - 1} & set(range(orig_, UME))):
+                for off_ in (0, 1, -1, 2, 9, -9, 300, -300, 0x7FFF, -0x8000, UME - 1 - addr_, UME - addr_, orig_ - addr_, orig_ - addr_ - 1):
+                    if not -0x8000 <= off_ <= 0x7FFF:
+                        continue
+                    def sub(e, _o=orig_):
+                        if e[0] == "call" and str(e[1]).endswith("Debugger::orig") and len(e[2]) == 1:
+                            return _o
+                        return None
+                    env = {"subst": sub, "prog": prog, "args": {2: addr_, "address": addr_, 3: off_, "offset": off_}, "bool_not": True}
+                    try:
+                        lab = formula.eval_decision(tree_ao, env)
+                        got = formula.evaluate(lab, env) if lab is not None else None
+                    except (formula.Unknown, formula.Overflow) as ex:
+                        got = "undecided (%s)" % ex
+                    want = ("variant", "Some", "core::option::Option", (addr_ + off_,)) if orig_ <= addr_ + off_ < UME else ("variant", "None", "core::option::Option", ())
+                    if not (isinstance(got, tuple) and got[:2] == want[:2] and tuple(got[3]) == want[3]):
+                        bad_ao = (orig_, addr_, off_, got, want)
+                        break
+                if bad_ao:
+                    break
+            if bad_ao:
+                break
+    ctx.instance(1)
+    ctx.oblig(tree_ao is not None and bad_ao is None, {"offset helper": "Some(address + offset) iff origin <= address + offset < 0xFE00"}, "evaluated on a grid around both bounds")
+    if tree_ao is None or bad_ao:
+        ctx.violation("offset-helper-bounds", ao.file_line(), "add_address_offset does not answer Some(address + offset) exactly for the sums inside [origin, 0xFE00): %s"
+                      % ("its structure cannot be unfolded" if tree_ao is None else "origin x%04X, address x%04X, offset %d gives %s, expected %s" % (bad_ao[0], bad_ao[1], bad_ao[2], _show_opt(bad_ao[3]), _show_opt(bad_ao[4]))))
     # (d) address -> statement index
     gs = ctx.fn("lace::debugger::asm::AsmSource::get_source_statement")
     idx = [(b, t) for b, t, c in gs.calls() if c and (c.endswith("[T]>::get") or c.endswith("::get_unchecked") or c.endswith("Index<I>>::index"))]
@@ -89,7 +127,11 @@ def run(ctx):
                 conds.append((gs.expr(tt["a"], 12), [x for v, x in tt["targets"] if v == 0], tt["otherwise"], d))
         lower = any(c[0] == "bin" and c[1] == "Lt" and "address" in expr_str(c[2]) and "orig" in expr_str(c[3]) and gs.dominates(z[0], b)
                     for c, z, o, d in conds if z)
-        upper = any(c[0] == "bin" and c[1] == "Ge" and "len(" in expr_str(c[3]) and same(lin(c[2]), 0, [("address", 1), (".orig", -1)]) and gs.dominates(z[0], b)
+        def plain_len(e_):
+            # the statement count itself, not the count less one or plus one (the last statement has index len - 1)
+            e_ = kit.strip_casts(e_)
+            return e_[0] == "call" and re.search(r"::len$", str(e_[1])) is not None and len(e_[2]) == 1
+        upper = any(c[0] == "bin" and c[1] == "Ge" and plain_len(c[3]) and same(lin(c[2]), 0, [("address", 1), (".orig", -1)]) and gs.dominates(z[0], b)
                     for c, z, o, d in conds if z)
         # equivalent idioms: `address.checked_sub(origin)?` is the lower guard, and a `get()` whose Option is handed on (never unwrapped)
         # is its own upper guard
@@ -101,7 +143,7 @@ def run(ctx):
             ctx.oblig(okk, {"lookup guard": nm}, "dominating comparison")
             if not okk:
                 ctx.violation("lookup-guard|%s" % nm, sp_file_line(t.get("sp")),
-                              "the statement lookup is not guarded by `%s`: addresses holding no statement would show one" % nm)
+                              "the statement lookup is not guarded by `%s`: addresses holding no statement would show one, or the last statement of the program none" % nm)
     # (e) reverse lookup: line == (address - origin) + 1
     rn = [f for n, f in prog.fns.items() if n.startswith("lace::debugger::resolve_symbol_name::{closure") and f.bkind == "fn"]
     ctx.need(rn, "symbol-name lookup closure")
@@ -541,3 +583,9 @@ def run(ctx):
 
 def kit_fields(p):
     return [e.get("n") for e in p.get("pr", []) if isinstance(e, dict) and "f" in e]
+
+
+def _show_opt(v):
+    if isinstance(v, tuple) and len(v) >= 4 and v[0] == "variant":
+        return "%s%s" % (v[1], "(x%04X)" % v[3][0] if v[3] else "")
+    return str(v)
